@@ -286,7 +286,9 @@ def _run(seed, maxlen):
 
 def replay(ob, res):
     obs = _run(0, 4)
-    if obs.get("failing"):
+    from pyvc.replay import failing_of
+    if failing_of(obs):
+        obs = dict(obs, failing=failing_of(obs))
         return {"reproduced": True, "call": "murmur3_32(data.decode('latin-1'), seed) vs MurmurHash3_x86_32", "input": obs["failing"],
                 "cases_tried": obs.get("cases")}
     return {"reproduced": False, "searched": obs}
